@@ -199,16 +199,7 @@ def inequality(ctx, F):
     # tautologies
     site = 'write_inequality#tautology'
     sym = {}
-    shown = []
-    for bb, e, t in displayed(b, R):
-        if e[0] == 'phi' and len(e) > 2 and all(a[0] == 'const' for a in e[2]):
-            # the symbol is chosen into a variable first: each alternative under the guards of its assignment (plus those of the write)
-            from ..mir import phi_table
-            for v, dl, dbb in phi_table(b, R, e[1]):
-                shown.append((v, list(dl) + list(literals(b, R, bb))))
-        else:
-            shown.append((e, literals(b, R, bb)))
-    for e, lits in shown:
+    for e, lits in shown_alternatives(b, R):
         if e[0] == 'const' and e[1] in ('⊤', '⊥'):
             # polarity of `bias >= 0.0` on this path, in whichever spelling the guard is written
             ge = [('true',) for op_, x_, y_ in prune.cmp_facts(lits) if op_ == 'Ge' and x_ == ('param', 'bias') and y_ == ('const', 0.0)] + \
@@ -291,6 +282,20 @@ def node_display(ctx, F):
                                     'node Display does not render the node\'s own aff according to its leaf flag', b.span)
 
 
+def shown_alternatives(b, R):
+    """(value, guard literals) for everything written with `{}`: a symbol that is first chosen into a variable (`let s = if c { A } else { B }`)
+    counts as each alternative under the guards of its assignment plus those of the write."""
+    from ..mir import phi_table
+    out = []
+    for bb, e, t in displayed(b, R):
+        if e[0] == 'phi' and len(e) > 2 and all(a[0] == 'const' for a in e[2]):
+            for v, dl, dbb in phi_table(b, R, e[1]):
+                out.append((v, list(dl) + list(literals(b, R, bb))))
+        else:
+            out.append((e, literals(b, R, bb)))
+    return out
+
+
 def wfloat(ctx, F):
     b = ctx.body('C19.R3', 'write_float')
     if b is None:
@@ -298,8 +303,7 @@ def wfloat(ctx, F):
     R = Resolver(b)
     sgn = {}
     mag = None
-    for bb, e, t in displayed(b, R):
-        lits = literals(b, R, bb)
+    for e, lits in shown_alternatives(b, R):
         neg = [l for l in lits if is_call(l[1], 'f64::is_sign_negative') and l[1][2][0] == ('param', 'value')]
         if e[0] == 'const' and neg:
             sgn[e[1]] = neg[0][0]
